@@ -247,6 +247,21 @@ ECONST_CLASSES = {
 }
 
 
+def _symm(ctx, prop):
+    from .rules import symmetry
+    out = []
+    if prop in ('C09', 'C11', 'C15'):
+        r, nh, npth = symmetry.rule_SYMM(ctx)
+        r.floor('divided-difference helpers', nh, 15)
+        r.floor('paths', npth, 80)
+        out.append(r)
+    if prop in ('C09', 'C15'):
+        r, npairs = symmetry.rule_ALT(ctx)
+        r.floor('pairs of alternative forms', npairs, 2)
+        out.append(r)
+    return out
+
+
 def _econst(ctx, prop):
     from .rules import econst
     if prop not in ECONST_CLASSES:
@@ -510,6 +525,7 @@ def run(prop, tier):
     ctx = Ctx(tier=tier)
     results = CHECKS[prop](ctx)
     results += _econst(ctx, prop)
+    results += _symm(ctx, prop)
     results += _lint(ctx, prop)
     rules = sorted({ALIAS.get(r.rule, r.rule) for r in results})
     _extra[prop] = {'positive_controls': controls.run_controls(rules)}
